@@ -441,6 +441,36 @@ func c19OneHistory(rng *hx.Rng, it int) hx.Case {
 			}
 		}
 	}
+	gasVal := func(tx *types.Transaction) string {
+		return hx.L(hx.Z(tx.GasPrice()), hx.Z(new(big.Int).SetUint64(tx.Gas())))
+	}
+	// the settings carried by what the endpoints received in this step: per endpoint in order (a
+	// single call), or of all transactions in nonce order (a burst)
+	gasesOf := func(byNonce bool) string {
+		var txs []*types.Transaction
+		for e := 0; e < n; e++ {
+			for _, raw := range node(e).Txs() {
+				tx := new(types.Transaction)
+				if err := tx.UnmarshalBinary(raw); err == nil {
+					txs = append(txs, tx)
+				}
+			}
+		}
+		if byNonce {
+			sort.SliceStable(txs, func(i, j int) bool { return txs[i].Nonce() < txs[j].Nonce() })
+		}
+		var gs []string
+		for _, tx := range txs {
+			gs = append(gs, gasVal(tx))
+		}
+		return hx.L(gs...)
+	}
+	crKind := func(kind int) int {
+		if k := kind % 6; k == 3 || k == 4 {
+			return 1
+		}
+		return 0
+	}
 	broken := false
 	for step := 0; step < L && !broken; step++ {
 		for e := 0; e < n; e++ {
@@ -457,6 +487,8 @@ func c19OneHistory(rng *hx.Rng, it int) hx.Case {
 			rig.adaptor.SetGasPrice(big.NewInt(curPrice))
 			rig.adaptor.SetGasLimit(new(big.Int).SetUint64(curLimit))
 			tags = append(tags, "gas-settings-changed")
+			evs = append(evs, hx.L(hx.Zi(4), hx.Zi(int(curPrice)), hx.Zi(int(curLimit))))
+			outs = append(outs, hx.L(hx.Zi(4)))
 		}
 		switch {
 		case k == 10: // ---- the node drops its connections and connects again
@@ -469,7 +501,7 @@ func c19OneHistory(rng *hx.Rng, it int) hx.Case {
 				alive[i] = true
 			}
 			evs = append(evs, hx.L(hx.Zi(3)))
-			outs = append(outs, hx.L(hx.Zi(3)))
+			outs = append(outs, hx.L(hx.L(hx.Zi(3)), hx.L()))
 			if failFirst {
 				tags = append(tags, "reconnect-after-failed-attempt")
 			} else {
@@ -507,7 +539,7 @@ func c19OneHistory(rng *hx.Rng, it int) hx.Case {
 				}
 			}
 			evs = append(evs, hx.L(hx.Zi(0), hx.L(zs...)))
-			outs = append(outs, hx.L(hx.Zi(0), hx.Zi(served)))
+			outs = append(outs, hx.L(hx.L(hx.Zi(0), hx.Zi(served)), hx.L()))
 			tags = append(tags, "read")
 		case k < 8: // ---- one state-changing call
 			assign := make([]int, n)
@@ -590,8 +622,8 @@ func c19OneHistory(rng *hx.Rng, it int) hx.Case {
 			} else if len(after) != len(before) {
 				problems = append(problems, fmt.Sprintf("step %d: one call produced %d accepted transactions", step, len(after)-len(before)))
 			}
-			evs = append(evs, hx.L(hx.Zi(1), hx.L(zs...)))
-			outs = append(outs, hx.L(hx.Zi(1), hx.L(sent...), res, nonce))
+			evs = append(evs, hx.L(hx.Zi(1), hx.Zi(crKind(ck)), hx.L(zs...)))
+			outs = append(outs, hx.L(hx.L(hx.Zi(1), hx.L(sent...), res, nonce), gasesOf(false)))
 			tags = append(tags, "write")
 		default: // ---- a burst of k calls queued together; the nonce question takes 60 ms to answer
 			k := 2 + rng.Intn(3)
@@ -614,6 +646,11 @@ func c19OneHistory(rng *hx.Rng, it int) hx.Case {
 			}
 			wg.Wait()
 			gasOf(step)
+			burstGases := gasesOf(true)
+			var kinds []string
+			for i := 0; i < k; i++ {
+				kinds = append(kinds, hx.Zi(crKind(base+i)))
+			}
 			for e := 0; e < n; e++ {
 				node(e).NonceDelay = 0
 			}
@@ -642,8 +679,8 @@ func c19OneHistory(rng *hx.Rng, it int) hx.Case {
 					}
 				}
 			}
-			evs = append(evs, hx.L(hx.Zi(2), hx.Zi(k)))
-			outs = append(outs, hx.L(hx.Zi(2), hx.L(ns...)))
+			evs = append(evs, hx.L(hx.Zi(2), hx.L(kinds...)))
+			outs = append(outs, hx.L(hx.L(hx.Zi(2), hx.L(ns...)), burstGases))
 			tags = append(tags, "burst")
 		}
 	}
@@ -688,8 +725,8 @@ func c19OneHistory(rng *hx.Rng, it int) hx.Case {
 	if len(after) == len(before)+1 {
 		nonce = hx.Zi(int(after[len(after)-1]))
 	}
-	evs = append(evs, hx.L(hx.Zi(1), hx.L(zs...)))
-	outs = append(outs, hx.L(hx.Zi(1), hx.L(sent...), res, nonce))
+	evs = append(evs, hx.L(hx.Zi(1), hx.Zi(0), hx.L(zs...)))
+	outs = append(outs, hx.L(hx.L(hx.Zi(1), hx.L(sent...), res, nonce), gasesOf(false)))
 	rig.close()
 	oracle := "ok"
 	if len(problems) > 0 {
@@ -699,7 +736,7 @@ func c19OneHistory(rng *hx.Rng, it int) hx.Case {
 		oracle = hx.Fail("adaptor-history", strings.Join(problems, "; "))
 	}
 	impl := hx.L(outs...)
-	w.Put(hx.Case{Entry: "adaptor", Op: 1, Args: hx.L(hx.Zi(n), hx.Zi(7), hx.L(evs...)), Impl: impl, Oracle: oracle,
+	w.Put(hx.Case{Entry: "adaptorgas", Op: 1, Args: hx.L(hx.Zi(n), hx.Zi(7), hx.Zi(ethGasPrice), hx.Zi(ethGasLimit), hx.L(evs...)), Impl: impl, Oracle: oracle,
 		Tags: append([]string{"history", fmt.Sprintf("endpoints:%d", n), "nt"}, dedup(tags)...)})
 	return result
 }
